@@ -43,8 +43,8 @@ CHECKS = {
              ]},
             {"pkg": "./server", "overlay": "server", "pkgname": "server",
              "harnesses": [
-                 {"name": "VerifC02Pipeline", "replay": "interpreted", "max-paths": 3000000, "quick": {"steps": 5}, "thorough": {"steps": 7},
-                  "covers": ["done", "publish", "fetch-b", "fetch-c", "shrink", "expand-by-replicator", "small-batches", "stale-request"],
+                 {"name": "VerifC02Pipeline", "replay": "interpreted", "max-paths": 3000000, "quick": {"steps": 5, "stalereq": 0}, "thorough": {"steps": 7},
+                  "covers": ["done", "publish", "fetch-b", "fetch-c", "shrink", "expand-by-replicator", "small-batches"], "covers_thorough": ["stale-request"],
                   "targets": ["replicator).start", "replicator).replicate", "replicator).caughtUp", "replicator).maybeExpandISR", "protocolWriter).Flush",
                               "partition).sendReplicationRequest", "partition).handleReplicationRequest", "partition).handleReplicationResponse",
                               "partition).commitLoop", "partition).updateISRLatestOffset", "partition).messageProcessingLoop"]},
